@@ -8,7 +8,7 @@ From Coq Require Import List Arith Bool.
 From M Require Import Base Flat Hsm HsmSpec.
 From P Require Import HsmForest HsmResolve HsmReach HsmInit.
 From M Require HReent.
-From P Require HReentInv HsmQueueP HsmPar.
+From P Require HReentInv HsmQueueP HsmPar HsmParCor.
 From M Require Queue HsmQueueIO.
 Import ListNotations.
 
@@ -174,6 +174,22 @@ Theorem C02_every_event_threads_E :
     Hsm.trigger_event hm ev c e p f = (tr, f', res) -> exists E', HsmPar.reachE hm f E f' E'.
 Proof. intros. eapply HsmPar.reach_reachE. eapply trigger_event_reach; eauto. Qed.
 Print Assumptions C02_every_event_threads_E.
+
+(* The two central clauses without any side condition on the configuration: on machines with duplicate-free initial
+   lists whose parallel states enter all their regions, in EVERY configuration reachable from the one add_model
+   creates, every transition resolution (any declaring scope, any registered destination) leaves exactly
+   "previously active and not exited, or entered" active, enters nothing that is active unless it has just exited
+   it, and leads to a reachable configuration again. *)
+Theorem C02_balanced_reachable :
+  forall (hm : hmachine), wf_defs hm = true -> HsmPar.full_par_defs hm = true ->
+  forall (f : forest) (sc dst : path) (dd : sdefn) (r : resolution),
+    HsmParCor.reachable hm f -> find_def (scope_children hm sc) dst = Some dd -> resolve f sc dst dd = Some r ->
+    (forall p, p <> [] ->
+       (active (r_new r) p = true <-> (active f p = true /\ ~ In p (r_exits r)) \/ In p (r_enters r))) /\
+    (forall p, In p (r_enters r) -> active f p = true -> In p (r_exits r)) /\
+    HsmParCor.reachable hm (r_new r).
+Proof. exact HsmParCor.balanced_reachable. Qed.
+Print Assumptions C02_balanced_reachable.
 
 (* the delineation is sharp: the machine of KF-C02-2 (P with children A, B, C and initial [A; B]) fails
    full_par_defs, and its transition P_A -> P_C exits the never-entered C; with initial [A; B; C] the
